@@ -10,6 +10,7 @@ import os
 import subprocess
 
 import common
+import c09_prune
 
 
 def gen_history(r, n_nodes, n_conn, style):
@@ -201,7 +202,9 @@ def run(res):
   # corpus first
   cdir = os.path.join(common.CORPUS, "C09")
   for f in sorted(os.listdir(cdir)) if os.path.isdir(cdir) else []:
-    hs.append(("corpus:" + f, [tuple(o) for o in json.load(open(os.path.join(cdir, f)))["history"]]))
+    cd = json.load(open(os.path.join(cdir, f)))
+    if "history" in cd:                      # files with "py_history" belong to the Prune leg
+      hs.append(("corpus:" + f, [tuple(o) for o in cd["history"]]))
   n_small, n_big = (1500, 120) if thorough else (250, 24)
   for i in range(n_small):
     style = ["dag", "chain", "dense"][i % 3]
@@ -267,10 +270,130 @@ def run(res):
   res.extra["answers_compared"] = n_queries
   res.extra["size_histogram"] = sizes
   res.extra["exhaustive"] = bool(thorough)
+  run_prune_leg(res, thorough)
   if thorough:
     ok, out = common_coqchk("C09")
     res.obligation("coqchk", ok, out[-1500:])
   return "proof"
+
+
+def prune_histories(r, thorough):
+  P = c09_prune
+  hs = []
+  cdir = os.path.join(common.CORPUS, "C09")
+  for f in sorted(os.listdir(cdir)) if os.path.isdir(cdir) else []:
+    d = json.load(open(os.path.join(cdir, f)))
+    if "py_history" in d:
+      hs.append(("corpus:" + f, [tuple(o) for o in d["py_history"]]))
+  n_rand, n_struct, n_single, n_max = (900, 700, 40, 6) if thorough else (130, 110, 8, 2)
+  for i in range(n_rand):
+    small = i % 3 != 0
+    hs.append((f"rand{i}", P.gen_random(r, r.randint(5, 45) if small else r.randint(40, 90),
+                                        r.randint(2, 9) if small else r.randint(8, 30),
+                                        r.randint(1, 4), r.choice([3, 4, 8]))))
+  for i in range(n_struct):
+    hs.append((f"struct{i}", P.gen_structured(r, r.randint(1, 7))))
+  for i in range(n_single):
+    n = r.choice([63, 65, 66, 100, 129, 130, 140]) if i % 2 == 0 else r.randint(20, 150)
+    hs.append((f"single{i}", P.gen_single(r, n, r.randint(1, 6))))
+  for i in range(n_max):
+    hs.append((f"maxvar{i}", P.gen_maxvar(r, r.randint(0, 8))))
+  if thorough:
+    for k, h in enumerate(P.exhaustive_small()):
+      hs.append((f"pex{k}", h))
+  return hs
+
+
+def prune_bad(core, queries):
+  """Does the implementation violate the oracle on core + queries?"""
+  _, _, bad, _ = c09_prune.run_impl(list(core) + list(queries))
+  return bad is not None
+
+
+def run_prune_leg(res, thorough):
+  """Variable::Prune / ConnectNew / Filter(strict=False) against Typegraph/Prune.v and the reaching-definitions oracle."""
+  P = c09_prune
+  exe = common.build_extracted("prune", "Extract/ExtractPrune.v",
+                               os.path.join(common.VERIF, "harness", "ocaml", "prune_driver.ml"), ["prune_model"])
+  res.trusted_base += ["harness/ocaml/prune_driver.ml (token reader/printer for the extracted Prune model)"]
+  hv = P.header_max_var_size()
+  res.obligation("table:MAX_VAR_SIZE typegraph.h == Prune.v", hv == P.MODEL_MAX_VAR_SIZE,
+                 f"typegraph.h declares {hv}, the model uses {P.MODEL_MAX_VAR_SIZE}")
+  r = common.rng(res.seed, "c09-prune")
+  hs = prune_histories(r, thorough)
+  impl = []
+  for name, h in hs:
+    try:
+      impl.append(P.run_impl(h))
+    except Exception as e:       # the real API refused a generated call: a generator defect, fail closed
+      res.obligation("prune-impl-run:" + name, False, repr(e)[:300])
+      return
+  inp = "\n".join(P.to_line(rh) for _, rh, _, _ in impl) + "\n"
+  pr = subprocess.run([exe], input=inp, capture_output=True, text=True)
+  if pr.returncode != 0:
+    res.obligation("prune-model-run", False, pr.stderr[-2000:])
+    return
+  model_out = pr.stdout.split("\n")
+  n_mism = n_answers = n_illformed = n_fuel = n_viol = 0
+  kinds = {}
+  strict_subset = 0
+  for (name, h), (io, rh, bad, kept), mo in zip(hs, impl, model_out):
+    n_answers += io.count(";")
+    n_illformed += mo.count("?")
+    n_fuel += mo.count("!")
+    for o in rh:
+      kinds[o[0]] = kinds.get(o[0], 0) + 1
+    core = tuple(P.strip_queries(rh))
+    # non-trivial: some Bindings(node) answer is a non-empty strict subset of the variable's bindings
+    nontriv = False
+    im_fields = io.split(";")
+    qi = 0
+    nb = {}
+    for o in rh:
+      if o[0] in P.QUERIES:
+        if o[0] == "B" and o[2] is not None and im_fields[qi] and "," not in im_fields[qi] and nb.get(o[1], 0) >= 2:
+          nontriv = True
+        qi += 1
+      elif o[0] == "A":
+        nb[o[1]] = nb.get(o[1], 0) + 1
+    strict_subset += nontriv
+    res.count(core if nontriv else None)
+    if nontriv and len(res.samples) < 6 and len(core) <= 14:
+      res.sample({"py_history": P.to_line(list(core)), "answers_impl": io[-120:]})
+    if bad is not None:
+      n_viol += 1
+      if n_viol <= 3:
+        idx, what = bad
+        q = kept[idx]                     # replays use the ops as given (binding indexes, not ids)
+        pre = P.strip_queries(kept[:idx])
+        if q[0] == "T":                   # a PasteBinding postcondition: the op itself is the failing step
+          pre, q = pre + [q], ("B", q[1], None)
+        small = P.shrink(pre, lambda c: prune_bad(c, [q])) if n_viol == 1 else pre
+        o2, _, b2, _ = P.run_impl(small + [q])
+        kind = {"B": "Bindings", "L": "Bindings", "D": "Data", "F": "Filter-nonstrict", "R": "is_reachable",
+                "M": "is_reachable"}[q[0]]
+        if "PasteBinding" in what:
+          kind = "PasteBinding-origins"
+        kind = ("more-bindings-than-MAX_VAR_SIZE" if "MAX_VAR_SIZE" in what else
+                kind if "PasteBinding" in what else kind + "-differs-from-" + ("graph-reachability" if q[0] in "RM" else "reaching-definitions"))
+        res.violation("prune:%s:%s" % (kind, P.to_line(small + [q])[:80]),
+                      (b2[1] if b2 else what),
+                      {"py_history": [list(o) for o in small + [q]], "impl": o2, "case": name})
+    if io != mo.strip():
+      n_mism += 1
+      if n_mism <= 3:
+        d = first_diff(io, mo)
+        res.obligation("correspondence:prune:" + name, False,
+                       f"model and cfg.so differ near char {d}: impl={io[max(0, d - 30):d + 30]!r} "
+                       f"model={mo[max(0, d - 30):d + 30]!r}; history={P.to_line(list(core))[:300]}")
+  res.obligation("correspondence:prune-model-vs-cfg.so", n_mism == 0,
+                 f"{n_mism} of {len(hs)} Python-level histories disagree")
+  res.obligation("prune-model:no-fuel-exhaustion-and-all-ops-well-formed", n_fuel == 0 and n_illformed == 0,
+                 f"fuel exhausted {n_fuel}x, ill-formed ops {n_illformed}x")
+  res.extra["prune_histories"] = len(hs)
+  res.extra["prune_answers_compared"] = n_answers
+  res.extra["prune_op_histogram"] = kinds
+  res.extra["prune_histories_with_strict_subset_answer"] = strict_subset
 
 
 def common_coqchk(pid):
@@ -282,6 +405,13 @@ def common_coqchk(pid):
 def replay(res, path):
   common.bootstrap_pytype()
   d = json.load(open(path))
+  if "py_history" in d["replay"]:
+    h = [tuple(o) for o in d["replay"]["py_history"]]
+    out, rh, bad, _ = c09_prune.run_impl(h)
+    print("history:", c09_prune.to_line(rh))
+    print("impl   :", out)
+    print("oracle :", "ok" if bad is None else bad[1])
+    return 0 if bad is None else 1
   h = [tuple(o) for o in d["replay"]["history"]]
   r = common.rng(0)
   q = with_queries(r, h, 10**9, 0)
